@@ -5,5 +5,5 @@ P="$1"; shift
 D=$(mktemp -d /tmp/mut.XXXXXX)
 cp -r /repo/src "$D/src"
 (cd "$D" && patch -s -p1 < "$P")
-VERIF_REPO="$D" /verif/check "$@" || echo "exit=$?"
+VERIF_EVIDENCE_DIR="$D/evidence" VERIF_REPO="$D" /verif/check "$@" || echo "exit=$?"
 rm -rf "$D"
